@@ -239,9 +239,18 @@ def run_harness(binpath, outdir, seed, tier, mode="gen", ops=None, shard="0/1", 
 
 
 def run_driver(name, opsfile, outfile):
-    with open(opsfile) as fi, open(outfile, "w") as fo:
-        p = subprocess.run([driver_path(name)], stdin=fi, stdout=fo, stderr=subprocess.PIPE, text=True)
-    return p.returncode, p.stderr
+    # the driver executables are shared by all checks: while another check rebuilds them the file may be missing or busy
+    # for a moment (ENOENT / ETXTBSY); wait and try again instead of failing the check
+    last = None
+    for attempt in range(30):
+        try:
+            with open(opsfile) as fi, open(outfile, "w") as fo:
+                p = subprocess.run([driver_path(name)], stdin=fi, stdout=fo, stderr=subprocess.PIPE, text=True)
+            return p.returncode, p.stderr
+        except OSError as e:
+            last = e
+            time.sleep(2)
+    return 127, "model driver %s could not be started: %s" % (name, last)
 
 
 def strip_br(line):
